@@ -629,6 +629,36 @@ def run(ck):
                         inp_, got_, [0.0, J2, -J2])
     except Exception as e:
         ck.fail("raises:remove_cutoff_coupling", "remove_cutoff_coupling under a units context raised %r" % (e,), {})
+    # diagonalize() / undiagonalize() of a Hamiltonian called inside a units context: the stored energies afterwards are the eigenvalues in
+    # internal units (the stored value does not depend on the context in which a method was called)
+    try:
+        from quantarhei import Hamiltonian
+        hd_ = numpy.array([[0.0, 0.0, 0.0], [0.0, 1.0, 0.1], [0.0, 0.1, 1.2]])
+        for un_ in (None, "1/cm", "eV", "THz"):
+            for cut_ in (None, 0.05):
+                m.current_units["energy"] = "1/fs"; m._in_eu_count = 0; m._in_energy_units_context = False
+                hq_ = Hamiltonian(data=hd_.copy())
+                inp_ = {"accessor": "Hamiltonian.diagonalize(%s)" % ("" if cut_ is None else "coupling_cutoff"), "units": un_, "H_int": hd_.tolist()}
+                if un_:
+                    with energy_units(un_):
+                        hq_.diagonalize() if cut_ is None else hq_.diagonalize(coupling_cutoff=qr.convert(cut_, "int", to=un_))
+                        ein_ = numpy.diag(numpy.array(hq_.data)).copy()
+                else:
+                    hq_.diagonalize() if cut_ is None else hq_.diagonalize(coupling_cutoff=cut_)
+                    ein_ = numpy.diag(numpy.array(hq_.data)).copy()
+                ev_ = numpy.linalg.eigvalsh(hd_)
+                ck.case(("diagonalize-in-units", un_, cut_), nontrivial=bool(un_), accessor="Hamiltonian.diagonalize")
+                want_in = ev_ if not un_ else numpy.array([float(qr.convert(x_, "int", to=un_)) for x_ in ev_])
+                if numpy.abs(numpy.diag(numpy.asarray(hq_._data)) - ev_).max() > 1e-12 or numpy.abs(ein_ - want_in).max() > 1e-9 * numpy.abs(want_in).max():
+                    ck.fail("accessor:diagonalize", "after diagonalize() called inside a units context the stored energies are not the eigenvalues in internal units "
+                            "(or the values read in the context are not their conversion)", inp_, [numpy.diag(numpy.asarray(hq_._data)).tolist(), ein_.tolist()],
+                            [ev_.tolist(), want_in.tolist()])
+                hq_.undiagonalize()
+                if numpy.abs(numpy.asarray(hq_._data) - hd_).max() > 1e-12:
+                    ck.fail("accessor:undiagonalize", "undiagonalize() after a diagonalize() inside a units context does not give the Hamiltonian back", inp_,
+                            float(numpy.abs(numpy.asarray(hq_._data) - hd_).max()))
+    except Exception as e:
+        ck.fail("raises:diagonalize-in-units", "diagonalize under a units context raised %r" % (e,), {})
     # every library call once per run whatever the seed: inside a context of another unit and outside any context
     for li, (name, f) in enumerate(libs):
         for ctxu in ("1/cm", None, "eV"):
